@@ -13,7 +13,7 @@ ASSUME Cardinality({Hist[k].h : k \in 1..Len(Hist)}) = NumHistories(L, Deep)
 ASSUME Len(Hist) = NumHistories(L, Deep)
 ASSUME \A s \in 1..Len(LoadSets) :
           LET P == {Loads[k].perm : k \in {j \in 1..Len(Loads) : Loads[j].set = s}} IN
-          /\ P = {[j \in 1..Len(LoadSets[s]) |-> p[j]] : p \in Perms(Len(LoadSets[s]))}
+          /\ P = {[j \in 1..Len(LoadSets[s].lines) |-> p[j]] : p \in Perms(Len(LoadSets[s].lines))}
           /\ Cardinality({j \in 1..Len(Loads) : Loads[j].set = s}) = Cardinality(P)
 ASSUME \A k \in 1..Len(Loads) : Loads[k].op = LoadOp(Loads[k].set)
 ASSUME PrintT(<<"VF", "DOMAIN", Len(Hist), Len(Loads)>>)
